@@ -62,3 +62,25 @@ package net
 //@   requires l != nil && l.ctx != nil
 //@   nopanic[C17]
 //@   ensures[C17 plain] l.nativeConns != nil && !deref(l.nativeConns) && !IsNil(ret) ==> !dynIs(ret, "protocol.Conn")
+
+// NewSplitListener: an empty registry (the representation invariant holds trivially).
+//@ func net.NewSplitListener
+//@   ensures[C17 failclosed] err != nil ==> ret == nil
+//@   ensures[C17 empty] err == nil ==> ret != nil && fresh(ret) && ret.babyListeners != nil && ret.ctx != nil
+//@   |   && (forall k Int :: !smHasK(ret.babyListeners, k))
+
+// GetListener: registers (or returns the already registered) sub-listener under the given name; a newly
+// created one carries the native-connections flag of the options; the registry stays well formed and every
+// other name keeps its listener.
+//@ func net.(*SplitListener).GetListener
+//@   let m = l.babyListeners
+//@   requires[wf] l != nil && l.babyListeners != nil && l.baseLn != nil && l.ctx != nil && smWf(l.babyListeners, "net.MultiplexingListener")
+//@   ensures[C17 failclosed] err != nil ==> IsNil(ret)
+//@   ensures[C17 registered] err == nil ==> nextProto != "" && dynIs(ret, "net.MultiplexingListener") && smHas(m, nextProto)
+//@   |   && as(smGet(m, nextProto), "net.MultiplexingListener") == as(ret, "net.MultiplexingListener")
+//@   ensures[C17 existingkept] err == nil && old(smHas(m, nextProto)) ==> smGet(m, nextProto) == old(smGet(m, nextProto))
+//@   ensures[C17 native] err == nil && !old(smHas(m, nextProto)) ==> as(ret, "net.MultiplexingListener").nativeConns != nil
+//@   |   && deref(as(ret, "net.MultiplexingListener").nativeConns) == opts(opt).WithNativeConns
+//@   ensures[C17 wf] smWf(l.babyListeners, "net.MultiplexingListener")
+//@   ensures[C17 others] forall k Int :: (!isStr(k) || unboxStr(k) != nextProto) ==> smHasK(m, k) == old(smHasK(m, k)) && smGetK(m, k) == old(smGetK(m, k))
+//@   modifies syncmap(l.babyListeners)
